@@ -69,6 +69,7 @@ fn extreme_args() -> (u64, u64, u64) {
 }
 
 //@ id: c04_hypergeometric_small
+//@ besteffort: yes
 //@ prop: C04
 //@ tier: thorough
 //@ cap: 900
@@ -108,6 +109,7 @@ vproof! {
 }
 
 //@ id: c04_hypergeometric
+//@ besteffort: yes
 //@ prop: C04
 //@ tier: thorough
 //@ cap: 5400
@@ -129,6 +131,7 @@ vproof! {
 }
 
 //@ id: c02_hypergeometric_reductions_small
+//@ besteffort: yes
 //@ prop: C02
 //@ tier: thorough
 //@ cap: 900
@@ -150,6 +153,7 @@ vproof! {
 }
 
 //@ id: c02_hypergeometric_reductions
+//@ besteffort: yes
 //@ prop: C02
 //@ tier: thorough
 //@ cap: 5400
